@@ -21,7 +21,7 @@ PROPS = {
         'design_ref': 'DESIGN.md §5 K2, §6 C02',
     },
     'C03': {
-        'verus': ['program_lines', 'program_state', 'data_cursor', 'variables', 'statements'],
+        'verus': ['program_lines', 'program_state', 'data_cursor', 'variables', 'statements', 'expressions'],
         'kani': ['arrays', 'operators', 'loop_stack'],
         'level': 'proof',
         'design_ref': 'DESIGN.md §6 C03',
@@ -87,7 +87,7 @@ PROPS = {
         'design_ref': 'DESIGN.md §6 C11',
     },
     'C16': {
-        'verus': ['program_state', 'variables', 'statements', 'arrays_map'],
+        'verus': ['program_state', 'variables', 'statements', 'arrays_map', 'expressions'],
         'kani': ['arrays', 'operators', 'loop_stack'],
         'level': 'proof',
         'design_ref': 'DESIGN.md §6 C16',
